@@ -193,6 +193,21 @@ pub fn run(env: &Env, run: &Run) -> (Stats, Coverage) {
                             show_dp(&r),
                         );
                     }
+                    if alias <= 0x10FFFF {
+                        // x, alias, x, x, alias: both must still be answered as before (see below)
+                        for _again in 0..2 {
+                            let back = dp_cp(class, x);
+                            h.evaluations += 1;
+                            if back != before {
+                                h.violation("history_alias", || Case::new("alias").n(alias as u64).n(x as u64), format!("{:#x} (queried right after {:#x}) classified as before ({})", x, alias, show_dp(&before)), show_dp(&back));
+                            }
+                        }
+                        let r2 = dp_cp(class, alias);
+                        h.evaluations += 1;
+                        if r2 != r {
+                            h.violation("history_alias", || Case::new("alias").n(x as u64).n(alias as u64), format!("{:#x} (queried again after {:#x}) classified as before ({})", alias, x, show_dp(&r)), show_dp(&r2));
+                        }
+                    }
                 }
                 // every 32-bit value with the same low 24 bits (255 of them), and the nearest 48
                 // values with the same low 21, 20 and 16 bits: what a key truncated to w bits and
@@ -227,11 +242,15 @@ pub fn run(env: &Env, run: &Run) -> (Stats, Coverage) {
                                 show_dp(&r),
                             );
                         }
-                        // and x itself must not have been disturbed by the alias
-                        let back = dp_cp(class, x);
-                        h.evaluations += 1;
-                        if back != before {
-                            h.violation("history_alias", || Case::new("alias").n(alias as u64).n(x as u64), format!("{:#x} (queried right after {:#x}) classified as before ({})", x, alias, show_dp(&before)), show_dp(&back));
+                        // and x itself must not have been disturbed by the alias - asked twice: a
+                        // lookup that answers correctly but reorders or rewrites its cache entry on a
+                        // hit (move-to-front, promotion between ways) shows on the NEXT lookup
+                        for _again in 0..2 {
+                            let back = dp_cp(class, x);
+                            h.evaluations += 1;
+                            if back != before {
+                                h.violation("history_alias", || Case::new("alias").n(alias as u64).n(x as u64), format!("{:#x} (queried right after {:#x}) classified as before ({})", x, alias, show_dp(&before)), show_dp(&back));
+                            }
                         }
                     }
                 }
@@ -256,7 +275,7 @@ pub fn run(env: &Env, run: &Run) -> (Stats, Coverage) {
             "reference_identifier": format!("{:?}", derived_property(&env.u63, v, Class::Identifier))}));
     }
     let cov = Coverage {
-        rule: "state = one 32-bit value; both classes and both entry points are evaluated on it and compared with (a) the RFC 8264 s.8 decision list recomputed from the pinned raw 6.3.0 UCD files by an independent reader, (b) the IANA registry row read by the harness's own splitter; plus single-threaded aliasing histories x -> x xor 2^b (b=16..31) -> x, and x -> x + k*2^24 (all k) / x + k*2^w (w=21,20,16; k<=48) -> x, and x -> x xor m -> x for every mask m of one or two bits among bits 0..20, for scalar values x (quick: a third of them rotating with the seed + all below U+3000 and U+F900..U+10000; thorough: all); non-trivial = scalar values whose identifier value is not UNASSIGNED".into(),
+        rule: "state = one 32-bit value; both classes and both entry points are evaluated on it and compared with (a) the RFC 8264 s.8 decision list recomputed from the pinned raw 6.3.0 UCD files by an independent reader, (b) the IANA registry row read by the harness's own splitter; plus single-threaded aliasing histories x -> x xor 2^b (b=16..31) -> x, and x -> x + k*2^24 (all k) / x + k*2^w (w=21,20,16; k<=48) -> x, and x -> x xor m -> x for every mask m of one or two bits among bits 0..20, x being asked twice after every in-range alias (x, y, x, x, y), for scalar values x (quick: a third of them rotating with the seed + all below U+3000 and U+F900..U+10000; thorough: all); non-trivial = scalar values whose identifier value is not UNASSIGNED".into(),
         alphabet: json!("u32"),
         bound_completed: bound,
         exhaustive,
